@@ -129,7 +129,7 @@ WorkerCheck(i) ==
 \* the exiting accept thread drops the sending ends of the workers' connection queues; a worker that is serving
 \* (Available) and has no stop order waiting takes the closed queue as the end of its life: its future completes, the
 \* worker (arbiter) stops and every connection in progress on it is torn down.  (worker.rs: the stop channel is polled
-\* first, so a worker that already has its order never takes this path.)
+\* first in every poll, so a worker that starts a poll with its order waiting does not take this path.)
 \* In mid-poll (inpoll) the stop channel has been looked at already: as found (F9) the worker quits although its order
 \* is waiting; repaired, it polls again from the top when an order is waiting (LeavePoll, then WorkerRecvStop).
 WorkerQueueClosed(i) ==
